@@ -1185,6 +1185,15 @@ class Repo:
                         for t in self.resolve_callee(a, fi):
                             if unparse(a) not in ("self",):
                                 g[fi.qualname].add(t.qualname)
+            # edges visible only in the normal form (hoisted aliases propagated, new helpers inlined)
+            try:
+                nfi = self.flat(fi)
+            except Exception:
+                nfi = fi
+            if nfi is not fi:
+                for call in self.calls_in(nfi):
+                    for t in self.resolve_call(call, nfi):
+                        g[fi.qualname].add(t.qualname)
         self._callgraph = g
         self._callsites = sites
         return g
